@@ -10,7 +10,8 @@ Record wkeeps (h h' : heap) : Prop := mk_wkeeps {
   wk_wins : forall a c, findw h a = Some c ->
     exists c', findw h' a = Some c' /\ (w_parent c' = w_parent c \/ w_parent c' = None) /\
                w_ref c' = w_ref c /\ w_isroot c' = w_isroot c;
-  wk_dom : forall a, findw h a = None -> findw h' a = None
+  wk_dom : forall a, findw h a = None -> findw h' a = None;
+  wk_nextw : nextw h' = nextw h
 }.
 
 Lemma wkeeps_refl : forall h, wkeeps h h.
@@ -18,18 +19,18 @@ Proof. intro h. constructor; eauto 10. Qed.
 
 Lemma wkeeps_trans : forall h1 h2 h3, wkeeps h1 h2 -> wkeeps h2 h3 -> wkeeps h1 h3.
 Proof.
-  intros h1 h2 h3 [W1 D1] [W2 D2]. constructor; auto.
+  intros h1 h2 h3 [W1 D1 N1] [W2 D2 N2]. constructor; auto; [|congruence].
   intros a c1 H1. destruct (W1 a c1 H1) as [c2 [H2 [Hp2 [Hr2 Hi2]]]].
   destruct (W2 a c2 H2) as [c3 [H3 [Hp3 [Hr3 Hi3]]]]. exists c3. split; auto. split; [|split; congruence].
   destruct Hp3 as [E|E]; [rewrite E; auto | auto].
 Qed.
 
 Lemma keeps_wkeeps : forall h h', keeps h h' -> wkeeps h h'.
-Proof. intros h h' [W Dm _ _]. constructor; auto. Qed.
+Proof. intros h h' [W Dm _ _ N]. constructor; auto. Qed.
 
-Lemma same_wins_wkeeps : forall h h', wins h' = wins h -> wkeeps h h'.
+Lemma same_wins_wkeeps : forall h h', wins h' = wins h -> nextw h' = nextw h -> wkeeps h h'.
 Proof.
-  intros h h' Hw. constructor.
+  intros h h' Hw Hnw. constructor; [| |exact Hnw].
   - intros a c Hf. exists c. unfold findw in *. rewrite Hw. auto.
   - intros a Hf. unfold findw in *. rewrite Hw. exact Hf.
 Qed.
@@ -50,7 +51,7 @@ Qed.
 Lemma wkeeps_shrinks : forall h h', wkeeps h h' ->
   (forall q cq, findq h' q = Some cq -> exists cq0, findq h q = Some cq0 /\ q_win cq = q_win cq0) -> shrinks h h'.
 Proof.
-  intros h h' [W Dm] Q. constructor; auto.
+  intros h h' [W Dm N] Q. constructor; auto.
   intros a c' Hf'. destruct (findw h a) as [c|] eqn:Hf.
   - destruct (W a c Hf) as [c1 [H1 [Hp _]]]. rewrite Hf' in H1. inversion H1; subst c1. eauto.
   - rewrite (Dm a Hf) in Hf'. discriminate.
@@ -103,7 +104,7 @@ Proof.
     assert (Hlw : findw h w <> None) by congruence.
     pose proof (purge_spec D fuel w h HI Hlw h eq_refl) as Hpg.
     destruct (purge fixed fuel w h) as [u1 h1| |]; [|contradiction|exact I].
-    destruct Hpg as [HI1 [Hw1 [Hu1 Hold1]]].
+    destruct Hpg as [HI1 [[Hw1 Hnw1] [Hu1 Hold1]]].
     assert (Fw1 : forall a, findw h1 a = findw h a) by (intro; unfold findw; rewrite Hw1; reflexivity).
     assert (Hw' : findw h1 w = Some cw) by (rewrite Fw1; exact Hw).
     pose proof (do_remove_spec D fuel p w cw h1 HI1 Hw' Hwp Hu1 h1 eq_refl) as Hrm.
@@ -115,7 +116,7 @@ Proof.
     { destruct (kp_wins h1 h2 K2 w cw Hw') as [c2' [Hf2' [_ [Hr2' _]]]]. rewrite Hw2 in Hf2'. inversion Hf2'; subst c2'. exact Hr2'. }
     set (h3 := upd_cell h2 w (fun c => set_closed c true)) in *.
     assert (WK : wkeeps h h3).
-    { eapply wkeeps_trans; [apply same_wins_wkeeps; exact Hw1|].
+    { eapply wkeeps_trans; [apply same_wins_wkeeps; [exact Hw1|exact Hnw1]|].
       eapply wkeeps_trans; apply keeps_wkeeps; eauto. }
     assert (SH : shrinks h h3).
     { apply wkeeps_shrinks; auto. intros q cq Hq.
@@ -140,7 +141,7 @@ Qed.
 Lemma free_queue_spec : forall D fuel h cr,
   hinv D h -> findw h root = Some cr ->
   hoare (fun h1 => h1 = h) (free_queue fuel root)
-        (fun _ h' => hinv D h' /\ wins h' = wins h /\ (forall q, findq h' q = None)).
+        (fun _ h' => hinv D h' /\ (wins h' = wins h /\ nextw h' = nextw h) /\ (forall q, findq h' q = None)).
 Proof.
   intros D. induction fuel as [|f IH]; intros h cr HI Hr h1 E; subst h1; [cbn; exact I|].
   cbn [free_queue].
@@ -156,13 +157,13 @@ Proof.
     unfold bind at 1. unfold bind at 1. unfold bind in Hrun.
     destruct (setr root (set_rqueue (rx h) (q_next c)) h) as [u h1| |] eqn:Hs; try discriminate.
     rewrite Hrun.
-    destruct (hinv_qunlink D h [] q rest c None HI Hc Hfq (or_introl (conj eq_refl eq_refl))) as [HI' [Hc' [Hw' _]]].
+    destruct (hinv_qunlink D h [] q rest c None HI Hc Hfq (or_introl (conj eq_refl eq_refl))) as [HI' [Hc' [[Hw' Hnw'] _]]].
     set (h' := qunlink h None q (q_next c)) in *.
     assert (Hr' : findw h' root = Some cr) by (unfold findw; rewrite Hw'; exact Hr).
     specialize (IH h' cr HI' Hr' h' eq_refl).
     destruct (free_queue f root h') as [u2 h2| |]; [|contradiction|exact I].
-    destruct IH as [HI2 [Hw2 Hnone]]. split; [exact HI2|]. split; [congruence|exact Hnone].
-  - cbn. split; [exact HI|]. split; [reflexivity|].
+    destruct IH as [HI2 [[Hw2 Hnw2] Hnone]]. split; [exact HI2|]. split; [split; congruence|exact Hnone].
+  - cbn. split; [exact HI|]. split; [split; reflexivity|].
     inversion Hq1; subst. intro q. destruct (findq h q) eqn:Hfq; auto.
     exfalso. assert (Hin : In q []) by (apply Hq2; congruence). contradiction.
 Qed.
@@ -170,7 +171,7 @@ Qed.
 Lemma root_cleanup_spec : forall D fuel w cw h,
   hinv D h -> findw h w = Some cw ->
   hoare (fun h1 => h1 = h) (root_cleanup fixed fuel w)
-        (fun _ h' => hinv D h' /\ wins h' = wins h /\ (w = root -> forall q, findq h' q = None) /\
+        (fun _ h' => hinv D h' /\ (wins h' = wins h /\ nextw h' = nextw h) /\ (w = root -> forall q, findq h' q = None) /\
                      (forall q cq, findq h' q = Some cq -> findq h q = Some cq)).
 Proof.
   intros D fuel w cw h HI Hw h1 E. subst h1. unfold root_cleanup. cbn [v_root_keeps_q fixed].
@@ -181,7 +182,7 @@ Proof.
     destruct (free_queue fuel root h) as [u h'| |]; [|contradiction|exact I].
     destruct Hfq as [HI' [Hw' Hnone]]. split; [exact HI'|]. split; [exact Hw'|]. split; [auto|].
     intros q cq Hq. rewrite Hnone in Hq. discriminate.
-  - apply Pos.eqb_neq in Er. cbn. split; [exact HI|]. split; [reflexivity|]. split; [intro; contradiction|auto].
+  - apply Pos.eqb_neq in Er. cbn. split; [exact HI|]. split; [split; reflexivity|]. split; [intro; contradiction|auto].
 Qed.
 
 (* ---- the pop of the loop over the children ----------------------------------------------------------- *)
@@ -306,6 +307,7 @@ Proof.
   intros h h' L. constructor.
   - intros a c' Hf. destruct (links_eq_find_rev h h' a c' L Hf) as [c [H1 [H2 _]]]. eauto.
   - intros q cq Hq. rewrite (le_reqs h h' L) in Hq. eauto.
+  - apply (le_nextw h h' L).
 Qed.
 
 Lemma links_eq_detached : forall h h' D, links_eq h h' -> detached h D -> detached h' D.
@@ -482,9 +484,9 @@ Proof.
   unfold bind at 1.
   pose proof (root_cleanup_spec (w :: D) f w cw2 h2 HI2 Hw2 h2 eq_refl) as Hrc.
   destruct (root_cleanup fixed f w h2) as [u3 h3| |]; [|contradiction|exact I].
-  destruct Hrc as [HI3 [Hw3 [Hroot3 Hold3]]].
+  destruct Hrc as [HI3 [[Hw3 Hnw3] [Hroot3 Hold3]]].
   assert (Fw3 : forall a, findw h3 a = findw h2 a) by (intro; unfold findw; rewrite Hw3; reflexivity).
-  assert (WK3 : wkeeps h2 h3) by (apply same_wins_wkeeps; exact Hw3).
+  assert (WK3 : wkeeps h2 h3) by (apply same_wins_wkeeps; [exact Hw3|exact Hnw3]).
   assert (SH3 : shrinks h2 h3) by (apply wkeeps_shrinks; eauto).
   assert (Hdet3 : detached h3 (w :: D)).
   { intros a [Ea|Ea].
@@ -516,6 +518,7 @@ Proof.
       * subst a. unfold h5 in Hf. rewrite findw_with_wins_remove_same in Hf. discriminate.
       * unfold h5 in Hf. rewrite findw_with_wins_remove_other in Hf by congruence. eauto.
     + intros q cq Hq. eauto.
+    + reflexivity.
   - apply findw_with_wins_remove_same.
 Qed.
 
